@@ -16,11 +16,18 @@ CASTS = {"bool", "numpy.asanyarray", "numpy.asarray", "numpy.array", "numpy.asco
 
 
 class Prov:
-    def __init__(self, ix, f, depth=8):
+    def __init__(self, ix, f, depth=8, ssa=False, abstract=None):
+        """ssa=True: augmented assignments and element stores are definitions too - `x += e` reads as `x' = x + e`,
+        `x[i] = e` as `x' = STORE(x, _[i], e)` - so that canonical forms do not depend on whether a value is built in one
+        expression or updated in steps (and never on what the local is called)"""
         self.ix = ix
         self.f = f
+        self.ssa = ssa
+        # {resolved callee: SYMBOL}: a call to that callee is one opaque symbol in every canonical form (its arguments are
+        # examined separately by whoever asks); keeps the terms of functions that thread a few producer results small
+        self.abstract = dict(abstract or {})
         self.cfg = CFG(f.node, exceptions=False)
-        self.rd = reaching_defs(self.cfg)
+        self.rd = reaching_defs(self.cfg, ssa=ssa)
         self.depth = depth
         a = f.node.args
         self.params = [x.arg for x in a.posonlyargs + a.args + a.kwonlyargs]
@@ -84,24 +91,75 @@ class Prov:
                 if ds == [prov.cfg.entry]:
                     return ast.Name(id=f"P_{node.id}", ctx=ast.Load())
                 if len(ds) == 1 and depth > 0:
-                    st = prov.cfg.stmt[ds[0]]
-                    if isinstance(st, ast.Assign) and len(st.targets) == 1 and isinstance(st.targets[0], ast.Name) \
-                            and prov.cfg.kind[ds[0]] == "stmt":
-                        return prov.inline(st.value, st, depth - 1, stop)
-                    if isinstance(st, ast.For) and prov.cfg.kind[ds[0]] == "for" and isinstance(st.target, ast.Name):
-                        return ast.Call(func=ast.Name(id="EACH", ctx=ast.Load()), args=[prov.inline(st.iter, st, depth - 1, stop)], keywords=[])
-                    if isinstance(st, ast.Assign) and len(st.targets) == 1 and isinstance(st.targets[0], ast.Tuple) \
-                            and prov.cfg.kind[ds[0]] == "stmt" and all(isinstance(x, ast.Name) for x in st.targets[0].elts):
-                        i = [x.id for x in st.targets[0].elts].index(node.id)
-                        if isinstance(st.value, (ast.Tuple, ast.List)) and len(st.value.elts) == len(st.targets[0].elts):
-                            return prov.inline(st.value.elts[i], st, depth - 1, stop)  # a, b = x, y
-                        return ast.Subscript(value=prov.inline(st.value, st, depth - 1, stop), slice=ast.Constant(i), ctx=ast.Load())
+                    t = prov._def_term(node.id, ds[0], depth, stop)
+                    if t is not None:
+                        return t
                 return ast.Name(id=f"PHI_{node.id}", ctx=ast.Load())
 
             def visit_Lambda(self, node):
                 return node
 
+            def visit_Call(self, node):
+                if prov.abstract:
+                    c = prov.callee(node.func)
+                    if c in prov.abstract:
+                        return ast.Name(id=prov.abstract[c], ctx=ast.Load())
+                return self.generic_visit(node)
+
         return T().visit(copy.deepcopy(expr))
+
+    def _def_term(self, name, d, depth, stop):
+        """expression tree for the value local `name` has after CFG node d defined it, or None when d is not a definition
+        this analysis can express"""
+        prov = self
+        st = prov.cfg.stmt[d]
+        if isinstance(st, ast.Assign) and len(st.targets) == 1 and isinstance(st.targets[0], ast.Name) \
+                and prov.cfg.kind[d] == "stmt":
+            return prov.inline(st.value, st, depth - 1, stop)
+        if prov.ssa and prov.cfg.kind[d] == "stmt" and isinstance(st, ast.AugAssign) and isinstance(st.target, ast.Name):
+            prev = prov.inline(ast.Name(id=name, ctx=ast.Load()), st, depth - 1, stop)
+            return ast.BinOp(left=prev, op=st.op, right=prov.inline(st.value, st, depth - 1, stop))
+        if prov.ssa and prov.cfg.kind[d] == "stmt" and isinstance(st, (ast.Assign, ast.AugAssign)):
+            tg = st.targets[0] if isinstance(st, ast.Assign) else st.target
+            if isinstance(tg, ast.Subscript) and isinstance(tg.value, ast.Name) and tg.value.id == name and (isinstance(st, ast.AugAssign) or len(st.targets) == 1):
+                prev = prov.inline(ast.Name(id=name, ctx=ast.Load()), st, depth - 1, stop)
+                idx = ast.Subscript(value=ast.Name(id="_", ctx=ast.Load()), slice=prov.inline(tg.slice, st, depth - 1, stop), ctx=ast.Load())
+                val = prov.inline(st.value, st, depth - 1, stop)
+                if isinstance(st, ast.AugAssign):
+                    val = ast.BinOp(left=ast.Subscript(value=copy.deepcopy(prev), slice=copy.deepcopy(idx.slice), ctx=ast.Load()), op=st.op, right=val)
+                return ast.Call(func=ast.Name(id="STORE", ctx=ast.Load()), args=[prev, idx, val], keywords=[])
+        if isinstance(st, (ast.Import, ast.ImportFrom)):
+            dotted = prov._local_import(st, name)
+            if dotted:
+                return ast.Name(id=dotted, ctx=ast.Load())
+        if isinstance(st, ast.For) and prov.cfg.kind[d] == "for" and isinstance(st.target, ast.Name):
+            return ast.Call(func=ast.Name(id="EACH", ctx=ast.Load()), args=[prov.inline(st.iter, st, depth - 1, stop)], keywords=[])
+        if isinstance(st, ast.Assign) and len(st.targets) == 1 and isinstance(st.targets[0], ast.Tuple) \
+                and prov.cfg.kind[d] == "stmt" and all(isinstance(x, ast.Name) for x in st.targets[0].elts):
+            i = [x.id for x in st.targets[0].elts].index(name)
+            if isinstance(st.value, (ast.Tuple, ast.List)) and len(st.value.elts) == len(st.targets[0].elts):
+                return prov.inline(st.value.elts[i], st, depth - 1, stop)  # a, b = x, y
+            return ast.Subscript(value=prov.inline(st.value, st, depth - 1, stop), slice=ast.Constant(i), ctx=ast.Load())
+        return None
+
+    def _local_import(self, st, name):
+        """dotted target of a name bound by an import statement inside the function"""
+        for a in st.names:
+            bound = (a.asname or a.name).split(".")[0] if isinstance(st, ast.Import) else (a.asname or a.name)
+            if bound != name:
+                continue
+            if isinstance(st, ast.Import):
+                return a.name if a.asname else a.name.split(".")[0]
+            pkg = self.f.module.name.split(".")
+            if st.level:
+                # a module's own package is its name minus the last component (packages are `x/__init__`)
+                base = pkg[:-1] if not getattr(self.f.module, "is_package", False) else pkg
+                base = base[: len(base) - (st.level - 1)] if st.level > 1 else base
+                mod = ".".join(base + ([st.module] if st.module else []))
+            else:
+                mod = st.module or ""
+            return f"{mod}.{a.name}" if mod else a.name
+        return None
 
     def alternatives(self, name, at_stmt, stop=(), strip=True):
         """canonical text of every definition of local `name` that may reach at_stmt (None when one is not a plain assignment)"""
@@ -126,6 +184,20 @@ class Prov:
                     out.add(f"{self.canon(st.value, st, stop=stop, strip=strip)}[{i}]")
             else:
                 return None
+        return out
+
+    def versions(self, name, at_stmt, stop=(), strip=True):
+        """canonical text of every definition of `name` reaching at_stmt, whatever kind of definition it is (in ssa mode
+        element stores and augmented assignments included); None when one of them cannot be expressed"""
+        out = set()
+        for d in self.defs_at(at_stmt, name) or []:
+            if d == self.cfg.entry:
+                out.add(f"P_{name}")
+                continue
+            t = self._def_term(name, d, self.depth, stop)
+            if t is None:
+                return None
+            out.add(self._finish(t, strip))
         return out
 
     def enclosing_tests(self, stmt):
@@ -168,8 +240,12 @@ class Prov:
             return r
         return None
 
-    def canon(self, expr, at_stmt, strip=True, stop=()):
+    def canon(self, expr, at_stmt, strip=True, stop=(), commutative=False):
+        """commutative=True: operands of + * & | are put in text order (after everything else), `a > b` becomes `b < a`"""
         e = self.inline(expr, at_stmt, stop=stop)
+        return self._finish(e, strip, commutative)
+
+    def _finish(self, e, strip=True, commutative=False):
         prov = self
 
         class N(ast.NodeTransformer):
@@ -194,12 +270,56 @@ class Prov:
                 return node
 
         e = N().visit(e)
+        if commutative:
+            e = _Commute().visit(e)
+        if getattr(self, "_want_ast", False):
+            return ast.fix_missing_locations(e)
         return ast.unparse(ast.fix_missing_locations(e))
+
+    def term(self, expr, at_stmt, strip=True, stop=()):
+        """the canonical form as an expression tree (for sa.template.match_expr); same vocabulary as canon()"""
+        self._want_ast = True
+        try:
+            return self.canon(expr, at_stmt, strip=strip, stop=stop)
+        finally:
+            self._want_ast = False
 
     def canon_call(self, call, at_stmt):
         """(callee, [canonical positional args], {kw: canonical})"""
         c = self.callee(self.inline(call.func, at_stmt)) or ast.unparse(call.func)
         return c, [self.canon(a, at_stmt) for a in call.args], {k.arg: self.canon(k.value, at_stmt) for k in call.keywords if k.arg}
+
+
+class _Commute(ast.NodeTransformer):
+    def visit_BinOp(self, node):
+        self.generic_visit(node)
+        if isinstance(node.op, (ast.Add, ast.Mult, ast.BitAnd, ast.BitOr)):
+            # flatten the chain of the same operator, sort by text, rebuild left-associated
+            terms = []
+
+            def flat(x):
+                if isinstance(x, ast.BinOp) and type(x.op) is type(node.op):
+                    flat(x.left)
+                    flat(x.right)
+                else:
+                    terms.append(x)
+
+            flat(node)
+            terms.sort(key=ast.unparse)
+            out = terms[0]
+            for t in terms[1:]:
+                out = ast.BinOp(left=out, op=type(node.op)(), right=t)
+            return out
+        return node
+
+    def visit_Compare(self, node):
+        self.generic_visit(node)
+        if len(node.ops) == 1 and isinstance(node.ops[0], (ast.Gt, ast.GtE)):
+            flip = {ast.Gt: ast.Lt, ast.GtE: ast.LtE}[type(node.ops[0])]
+            return ast.Compare(left=node.comparators[0], ops=[flip()], comparators=[node.left])
+        if len(node.ops) == 1 and isinstance(node.ops[0], (ast.Eq, ast.NotEq)) and ast.unparse(node.left) > ast.unparse(node.comparators[0]):
+            return ast.Compare(left=node.comparators[0], ops=node.ops, comparators=[node.left])
+        return node
 
 
 def _root(e):
